@@ -311,11 +311,15 @@ package kvgraph
 // AddGraph: an invalid name is refused and changes nothing; a valid name stores the
 // graph key (and index registrations), leaving every other non-index key alone.
 //@ func (*KVGraph).AddGraph
-//@   property C03 C16
+//@   property C03 C16 C04
 //@   option prelude=keys,kv
 //@   option load=kvindex,kvi,timestamp,gripql
 //@   option globals=kvgraph
 //@   modifies KV. TS. MapD.Str MapN MapV. SH. alloc
 //@   requires nonnil: kgraph != nil && kgraph.kv != nil && kgraph.ts != nil && kgraph.idx != nil && kgraph.idx.Fields != nil && kgraph.idx.KV != nil
 //@   ensures faithful: result == nil ==> nozero(graph) && kvhas(GraphKey(graph))
+// crash consistency (C04): the graph becomes visible (its graph key is written) only
+// after both of its label-index fields are persisted, so no crash point leaves a
+// graph that exists but whose elements would never be label-indexed
+//@   callsite KVInterface.Set requires indexfirst: kvhas(kvindex.FieldKey(graph + ".v.label")) && kvhas(kvindex.FieldKey(graph + ".e.label"))
 //@   ensures frame: forall k:Str :: !idxkey(k) && k != GraphKey(graph) ==> ((kvhas(k) <==> old(kvhas(k))) && kvval(k) == old(kvval(k)))
